@@ -9,5 +9,5 @@ def run(ctx):
     corpus = []
     for r in RUNS:
         r["ticks"] = tuple(r["ticks"])
-    kprops.kernel_check(ctx, "C04", runs=RUNS, preds=['C04', 'C04s', 'C02r', 'C08', 'C05'], corpus=corpus,
+    kprops.kernel_check(ctx, "C04", runs=RUNS, preds=['C04', 'C04s', 'C04u', 'C02r', 'C08', 'C05'], corpus=corpus,
                         rule="random kernel programs with several active/inactive/slave framers issuing bids (start/run/stop/abort/ready, with and without periods, to named taskers, 'me' and 'all') and fiats from every context and declaration order; every runner send (control received, status returned) is compared with the Coq model. Non-trivial = outline change and > 6 events")
